@@ -920,3 +920,58 @@ Proof.
       exists k. cbn [app]. rewrite <- E. reflexivity.
     + split; [exists 0%nat; rewrite app_nil_r; reflexivity | discriminate].
 Qed.
+
+(* ================================================================== 15. depth: the model has no depth limit *)
+Lemma fs_depth_chain : forall n name t, fs_depth (chain n name t) = (n + fs_depth t)%nat.
+Proof.
+  induction n as [|n IH]; intros name t; [reflexivity|]. cbn [chain fs_depth]. rewrite IH, Nat.max_0_r. reflexivity.
+Qed.
+
+Lemma is_fdir_chain : forall n name t, is_fdir t = true -> is_fdir (chain n name t) = true.
+Proof. intros [|n] name t E; [exact E | reflexivity]. Qed.
+
+(* the tree object of a directory holding the single sub-directory [name] whose id is i: "tree <len>\0" "40000 <name>\0<i>" *)
+Definition single_dir_object (name i : bytes) : bytes :=
+  git_object (bs "tree") (bs "40000" ++ [SP] ++ name ++ [NUL] ++ i).
+
+Lemma dir_manifest_single : forall name i,
+  dir_manifest [{| e_name := name; e_type := EDir; e_target := i; e_perms := PERMS_directory |}] = single_dir_object name i.
+Proof.
+  intros name i. rewrite dir_manifest_spec. unfold single_dir_object. cbn [sort insert map concat enc e_perms e_name e_target].
+  rewrite app_nil_r. reflexivity.
+Qed.
+
+Section Depth.
+  Variable H : bytes -> bytes.
+
+  (* the id of a chain is computed by iterating the single-entry tree object n times from the bottom: the iterative
+     reference of the correspondence check *)
+  Theorem node_id_chain : forall n name t, is_fdir t = true ->
+    node_id H (chain n name t) = Nat.iter n (fun i => H (single_dir_object name i)) (node_id H t).
+  Proof.
+    induction n as [|n IH]; intros name t E; [reflexivity|].
+    cbn [chain]. change (Nat.iter (S n) ?f ?x) with (f (Nat.iter n f x)). rewrite node_id_dir. cbn [map]. unfold fs_entry. cbn [fst snd].
+    rewrite (is_fdir_chain n name t E). rewrite <- (IH name t E).
+    replace (fs_perms (chain n name t)) with PERMS_directory.
+    - rewrite dir_manifest_single. reflexivity.
+    - pose proof (is_fdir_chain n name t E) as D. destruct (chain n name t); try discriminate D. reflexivity.
+  Qed.
+
+  Lemma wf_chain : forall n name t, name_wf name -> wf_fs t = true -> wf_fs (chain n name t) = true.
+  Proof.
+    induction n as [|n IH]; intros name t Wn Wt; [exact Wt|]. cbn [chain]. apply wf_fs_dir. split.
+    - cbn [map fst]. constructor; [intros [] | constructor].
+    - constructor; [|constructor]. cbn [fst snd]. split; [exact Wn | apply IH; assumption].
+  Qed.
+
+  (* at every depth the walk succeeds (no limit) and computes the id of the chain *)
+  Theorem no_depth_limit : forall n name t ord, is_fdir t = true -> name_wf name -> wf_fs t = true -> perm_oracle ord ->
+    fs_depth (chain n name t) = (n + fs_depth t)%nat /\
+    exists m, from_disk ord FAll None (chain n name t) = FdOk m /\
+              mt_id H m = Nat.iter n (fun i => H (single_dir_object name i)) (node_id H t).
+  Proof.
+    intros n name t ord E Wn Wt PO. split; [apply fs_depth_chain|].
+    destruct (from_disk_total ord FAll (chain n name t)) as [m FD]. exists m. split; [exact FD|].
+    rewrite (walk_refines H ord None _ m PO (wf_chain n name t Wn Wt) FD). apply node_id_chain. exact E.
+  Qed.
+End Depth.
